@@ -22,6 +22,9 @@ type State struct {
 	// log of havocs by key pattern: a heap key first touched after such a havoc
 	// must not be read as the initial heap
 	log []havocRec
+	// ver identifies the heap contents an opaque (symbolic) function application may depend on:
+	// it changes whenever the heap is written or havocked (VC mode).
+	vers map[string]int
 }
 
 type havocRec struct {
@@ -41,7 +44,7 @@ func (st *State) baseName(key string) string {
 }
 
 func (s *State) clone() *State {
-	n := &State{cond: s.cond, heap: make(map[string]string, len(s.heap)), cells: make(map[*Cell]Val, len(s.cells)), log: s.log}
+	n := &State{cond: s.cond, heap: make(map[string]string, len(s.heap)), cells: make(map[*Cell]Val, len(s.cells)), log: s.log, vers: s.vers}
 	for k, v := range s.heap {
 		n.heap[k] = v
 	}
@@ -119,6 +122,7 @@ type X struct {
 	polarity  int
 	noFacts   int
 	entryState *State
+	readPats   map[string]*regexp.Regexp
 	sideConds []sideCond
 }
 
@@ -690,6 +694,7 @@ func (x *X) writeLeaf(l loc, suffix, leaf, v string) {
 	x.written[key] = true
 	h := x.heapCur(key, heapSortFor(l, leaf))
 	nt := nestedStore(h, l.idx, v)
+	x.bumpHeapVersion(key)
 	x.st.heap[key] = x.define("h."+key, heapSortFor(l, leaf), nt)
 }
 
@@ -819,6 +824,7 @@ func (x *X) storeAt(l loc, t types.Type, v Val) {
 		x.touched[el.key] = true
 		x.written[el.key] = true
 		h := x.heapCur(el.key, arr2Sort(es))
+		x.bumpHeapVersion(el.key)
 		x.st.heap[el.key] = x.define("h."+el.key, arr2Sort(es), fmt.Sprintf("(store %s %s %s)", h, id, v.(S).T))
 	default:
 		unsup("store of %s", t)
@@ -1173,6 +1179,28 @@ func (x *X) mergeEdges(es []edge) *State {
 			out.heap[k] = x.define("hm."+k, x.heapSorts[k], h)
 		}
 	}
+	for _, e := range live {
+		for p, v := range e.st.vers {
+			if out.vers[p] != v {
+				nv := map[string]int{}
+				for k2, v2 := range out.vers {
+					nv[k2] = v2
+				}
+				nv[p] = newHeapVersion()
+				out.vers = nv
+			}
+		}
+		for p := range out.vers {
+			if _, ok := e.st.vers[p]; !ok && out.vers[p] != 0 {
+				nv := map[string]int{}
+				for k2, v2 := range out.vers {
+					nv[k2] = v2
+				}
+				nv[p] = newHeapVersion()
+				out.vers = nv
+			}
+		}
+	}
 	out.cond = x.define("bc", SBool, or(conds...))
 	return out
 }
@@ -1507,4 +1535,59 @@ func (x *X) instances(upto int) string {
 		}
 	}
 	return b.String()
+}
+
+var heapVerSeq int
+var heapVerMu sync.Mutex
+
+func newHeapVersion() int {
+	heapVerMu.Lock()
+	defer heapVerMu.Unlock()
+	heapVerSeq++
+	return heapVerSeq
+}
+
+// bumpHeapVersion records that the heap changed (writes to the allocation
+// map and to boxes of fresh values do not affect what pure functions of
+// existing objects compute, but are counted all the same: conservative).
+func (x *X) bumpHeapVersion(key string) {
+	if x.mode != modeVC || len(x.readPats) == 0 {
+		return
+	}
+	var nv map[string]int
+	for p, re := range x.readPats {
+		if key == "*" || re.MatchString(key) {
+			if nv == nil {
+				nv = map[string]int{}
+				for k2, v2 := range x.st.vers {
+					nv[k2] = v2
+				}
+			}
+			nv[p] = newHeapVersion()
+		}
+	}
+	if nv != nil {
+		x.st.vers = nv
+	}
+}
+
+// heapVersionFor returns the version of the part of the heap matching the
+// read patterns (a modifies-style list; empty = the whole heap).
+func (x *X) heapVersionFor(reads []string) int {
+	key := strings.Join(reads, " ")
+	if x.readPats == nil {
+		x.readPats = map[string]*regexp.Regexp{}
+	}
+	if _, ok := x.readPats[key]; !ok {
+		pat := ".*"
+		if len(reads) > 0 {
+			var alts []string
+			for _, r := range reads {
+				alts = append(alts, globToRegexp(r))
+			}
+			pat = strings.Join(alts, "|")
+		}
+		x.readPats[key] = regexp.MustCompile(pat)
+	}
+	return x.st.vers[key]
 }
